@@ -81,8 +81,9 @@ def cases(draw):
     eps = draw(world.episode_lists(max_eps=10, owners=["A", "B", "world"], allow_missing_ts=False,
                                    ids=["e1", "e10", "e2", "E3", "é4", "e5", "e6", "e7", "e8", "e9"]))
     graphs = {"g1": draw(world.graph_specs(max_nodes=6, max_edges=8, ids=["a", "b", "c", "d", "e", "ä"])),
-              "g2": draw(world.graph_specs(max_nodes=4, max_edges=4, ids=["a", "x", "y", "z"])),
-              "g3": draw(world.graph_specs(max_nodes=3, max_edges=3, ids=["p", "q", "r"]))}
+              # node ids overlap between graphs (a label map over several active graphs meets the same id twice)
+              "g2": draw(world.graph_specs(max_nodes=4, max_edges=4, ids=["a", "b", "x", "y"])),
+              "g3": draw(world.graph_specs(max_nodes=3, max_edges=3, ids=["a", "c", "q"]))}
     gel = draw(world.gel_graphs([e["id"] for e in eps])) if draw(st.booleans()) else None
     feats = sorted(draw(st.sets(st.sampled_from(FEATURES), max_size=5)))
     vals = {"workers": draw(st.sampled_from([2, 3, 4])), "policy": draw(st.sampled_from(["round_robin", "fair_queue"])),
